@@ -5,6 +5,26 @@ import (
 	"runtime"
 )
 
+// goid returns the id of the calling goroutine (parsed from the first line of its stack trace; about a
+// microsecond; the portable fallback of gident).
+func goid() int64 {
+	var buf [64]byte
+	n := runtime.Stack(buf[:], false)
+	// "goroutine 123 [running]:"
+	var id int64
+	for _, ch := range buf[10:n] {
+		if ch < '0' || ch > '9' {
+			break
+		}
+		id = id*10 + int64(ch-'0')
+	}
+	return id
+}
+
+// ForeignSeen is set (for the rest of the process) once code under test was observed running on a goroutine
+// that is not a logical thread of the scheduler (a worker pool inside the library, for instance).
+var ForeignSeen bool
+
 // E6 — cooperative scheduler. Logical threads are goroutines that run strictly one
 // at a time; at every scheduling point the running thread asks the explorer (E1)
 // who continues. Enabled threads are presented in canonical order: the running
@@ -24,6 +44,7 @@ type Thread struct {
 	blocked func() bool // non-nil while the thread waits for a shim lock
 	Result  string
 	panicv  *PanicInfo
+	gid     uintptr
 }
 
 type Sched struct {
@@ -38,6 +59,21 @@ type Sched struct {
 	Deadlock bool
 	Trace    []int       // thread id chosen at each point
 	Race     interface{} // optional race detector attached by the harness
+	Foreign  int         // hook calls that came from goroutines the scheduler does not own (ignored)
+}
+
+// Owned reports whether the calling goroutine is the running logical thread. Hooks that can be reached from
+// library-spawned goroutines must return at once when it is false: such goroutines run freely.
+func (s *Sched) Owned() bool {
+	if s.cur < 0 {
+		return false
+	}
+	if gident() == s.threads[s.cur].gid {
+		return true
+	}
+	s.Foreign++
+	ForeignSeen = true
+	return false
 }
 
 func NewSched(run *Run) *Sched {
@@ -52,6 +88,7 @@ func (s *Sched) Go(body func(t *Thread)) *Thread {
 	t := &Thread{ID: len(s.threads), s: s, resume: make(chan struct{})}
 	s.threads = append(s.threads, t)
 	go func() {
+		t.gid = gident()
 		<-t.resume
 		pi := Catch(func() { body(t) })
 		t.panicv = pi
@@ -121,7 +158,7 @@ func (s *Sched) schedule(running *Thread, label string) {
 
 // Point is a scheduling point of the running thread.
 func (s *Sched) Point(label string) {
-	if s.cur < 0 {
+	if s.cur < 0 || !s.Owned() {
 		return
 	}
 	s.schedule(s.threads[s.cur], label)
@@ -130,6 +167,14 @@ func (s *Sched) Point(label string) {
 // Block parks the running thread until cond() is false (used by the shim locks); other threads run meanwhile.
 func (s *Sched) Block(label string, waiting func() bool) {
 	if s.cur < 0 {
+		return
+	}
+	if !s.Owned() {
+		// a library-spawned goroutine waits for a shim lock: it is not parked by the scheduler, it yields the
+		// processor until the holder lets go
+		for waiting() {
+			runtime.Gosched()
+		}
 		return
 	}
 	t := s.threads[s.cur]
